@@ -977,9 +977,9 @@ func zzC09IdxCarves(row, kind, n int, ints []int64) {
 	// :start/:end (subseq: start end) both inside the sequence, start > end
 	startGtEnd := false
 	switch row {
-	case 1, 21, 22, 23, 33, 34:
+	case 1: // (position find position-if find-if were repaired by 2b926e5)
 		startGtEnd = kind != 3 && 0 <= b && b < a && a <= ln
-	case 138, 139, 140: // the same on the two-character string "éa"
+	case 140: // the same on the two-character string "éa"
 		startGtEnd = 0 <= b && b < a && a <= 2
 	case 17: // search: bounds of the first sequence (length 2)
 		startGtEnd = 0 <= b && b <= 2 && b < a
@@ -1036,12 +1036,8 @@ func zzC09IdxCarves(row, kind, n int, ints []int64) {
 	// length and then applied to the characters
 	multibyte := false
 	switch row {
-	case 137, 141, 142, 143:
+	case 137, 141, 142, 143: // (count was repaired by 1d9b6a7)
 		multibyte = b == 3 && 0 <= a && a <= 3
-	case 136:
-		multibyte = 0 <= a && a <= 2
-	case 148:
-		multibyte = a < b && 2 < b
 	}
 	vrt.Carve("C09-multibyte-string-bounds", multibyte)
 }
